@@ -377,9 +377,9 @@ VEX_REG_CLASSES = {"rvm": (0x72, 0x75), "rm": (0x68, 0x6B), "rvmi": (0x7A, 0x7C)
                    # X86Jcc / X86Jmp / X86Call to a bound label: rel8 and rel32 forms
                    "lrel": (0x26, 0x28, 0x1C),
                    # X86Arith `op r16/r32/r64, imm` (81 /d iw|id, 83 /d ib)
-                   "larithimm": (0x19,), "laccimm": (0x19, 0x3D), "lrotx": (0x37,), "lm": (0x0E, 0x38), "lmovri": (0x2C,), "lmovrmi": (0x2C,), "lmovmi": (0x2C,), "larithmi": (0x19,), "ltestmi": (0x3D,)}
+                   "larithimm": (0x19,), "laccimm": (0x19, 0x3D), "lrotx": (0x37,), "lm": (0x0E, 0x38), "lmovri": (0x2C,), "lmovrmi": (0x2C,), "lmovmi": (0x2C,), "larithmi": (0x19,), "ltestmi": (0x3D,), "lmoff": (0x2C, 0x2D), "lmoffst": (0x2C, 0x2D)}
 SHAPE_ROLES = {"rvm": ["reg", "vvvv", "rm"], "rm": ["reg", "rm"], "rvmi": ["reg", "vvvv", "rm", "imm"], "rmi": ["reg", "rm", "imm"],
-               "lrm": ["reg", "rm"], "lmr": ["rm", "reg"], "lrmi": ["reg", "rm", "imm"], "lop": None, "larith": ["rm", "reg"], "lrot": ["rm", "imm"], "larithi8": ["rm", "imm"], "lopreg": ["opc"], "larithrm": ["reg", "rm"], "lmov": ["rm", "reg"], "lmovrm": ["reg", "rm"], "mr": ["rm", "reg"], "mri": ["rm", "reg", "imm"], "llea": ["reg", "rm"], "lrel": ["rel"], "larithimm": ["rm", "imm"], "laccimm": ["none", "imm"], "lrotx": ["rm", "none"], "lm": ["rm"], "lmovri": ["opc", "imm"], "lmovrmi": ["rm", "imm"], "lmovmi": ["rm", "imm"], "larithmi": ["rm", "imm"], "ltestmi": ["rm", "imm"]}
+               "lrm": ["reg", "rm"], "lmr": ["rm", "reg"], "lrmi": ["reg", "rm", "imm"], "lop": None, "larith": ["rm", "reg"], "lrot": ["rm", "imm"], "larithi8": ["rm", "imm"], "lopreg": ["opc"], "larithrm": ["reg", "rm"], "lmov": ["rm", "reg"], "lmovrm": ["reg", "rm"], "mr": ["rm", "reg"], "mri": ["rm", "reg", "imm"], "llea": ["reg", "rm"], "lrel": ["rel"], "larithimm": ["rm", "imm"], "laccimm": ["none", "imm"], "lrotx": ["rm", "none"], "lm": ["rm"], "lmovri": ["opc", "imm"], "lmovrmi": ["rm", "imm"], "lmovmi": ["rm", "imm"], "larithmi": ["rm", "imm"], "ltestmi": ["rm", "imm"], "lmoff": ["none", "moff"], "lmoffst": ["moff", "none"]}
 
 
 COVER_NAMES = {}      # shape -> instruction names with an entry in that chunk (filled by class_rows_lean)
@@ -437,6 +437,15 @@ def class_rows_lean(kept, rows, chunk=96):
                 if role == "rel":
                     continue
                 if shape == "lrotx" and role == "none":      # fixed `cl` / implied `1`: not encoded
+                    continue
+                if shape in ("lmoff", "lmoffst"):
+                    if role == "moff":
+                        continue
+                    acc = {"al": "gpb", "ax": "gpw", "eax": "gpd", "rax": "gpq"}.get(o["reg"])
+                    if not acc:
+                        okf = False
+                        break
+                    kinds.append((acc,))
                     continue
                 if shape == "laccimm":      # fixed accumulator operand, not encoded
                     acc = {"al": "gpb", "ax": "gpw", "eax": "gpd", "rax": "gpq"}.get(o["reg"])
